@@ -5,6 +5,8 @@ import (
 	"go/constant"
 	"go/types"
 	"os"
+	"sort"
+	"strings"
 
 	"golang.org/x/tools/go/ssa"
 )
@@ -208,6 +210,12 @@ func (c *Ctx) syllableConvertByFolding() (string, int, bool) {
 					}
 					return "", 0, false
 				}
+				if len(fd.incomplete) > 0 {
+					if debug {
+						fmt.Fprintf(os.Stderr, "syllableConvertByFolding: incomplete: %s\n", fd.incomplete[0])
+					}
+					return "", 0, false
+				}
 				calls++
 				if after := fd.describeDeep(scalePtr, 0); after != scaleBefore {
 					return fmt.Sprintf("%s: the conversion changes the scale it reads from (%s -> %s): the chords after it are read in another key", what, scaleBefore, after), calls, true
@@ -268,7 +276,7 @@ func (c *Ctx) syllableConvertByFolding() (string, int, bool) {
 
 // describeDeep prints a value with what its pointers point to (to compare a structure before and after a call).
 func (f *folder) describeDeep(v fval, depth int) string {
-	if depth > 4 {
+	if depth > 9 {
 		return "..."
 	}
 	if v.addr != nil || v.cvptr != nil {
@@ -626,6 +634,296 @@ func (c *Ctx) metaConvertByFolding() (string, int, bool) {
 		}
 		if fmt.Sprint(got) != fmt.Sprint(want) {
 			return fmt.Sprintf("%s gives %v, want %v", what, got, want), n, true
+		}
+	}
+	return "", n, true
+}
+
+// circleByFolding decides the circle-of-fifths conversions by folding: op.NewCircleOfFifth() once, then
+// op.KeyConversionChain.Convert on it for each of the 28 supported keys and every chain over {p, r, d, s} of length 1
+// to 2, the chains x y x of length 3, twelve dominants and twelve subdominants. Each answer is compared with the
+// checker's own arithmetic: dominant moves the tonic up a fifth, subdominant down, keeping the mode; relative keeps the
+// signature (a minor third down to the minor, up to the major); parallel keeps the tonic; the member answered lists
+// every supported spelling of that key and nothing else; every chain succeeds. ok=false when something does not fold.
+func (c *Ctx) circleByFolding() (string, int, bool) {
+	newC, conv := c.fn("op", "NewCircleOfFifth"), c.fn("op", "KeyConversionChain.Convert")
+	if newC == nil || conv == nil || len(conv.Params) != 3 {
+		return "", 0, false
+	}
+	names := c.enumConsts("note", "Name")
+	accs := c.enumConsts("op", "Accidental")
+	kcs := c.enumConsts("op", "KeyConversion")
+	nameOf, accOf := map[int64]string{}, map[int64]string{}
+	for k, v := range names {
+		nameOf[v] = k
+	}
+	for k, v := range accs {
+		accOf[v] = map[string]string{"Natural": "", "Sharp": "#", "Flat": "b"}[k]
+	}
+	type pm = struct {
+		pc    int
+		minor bool
+	}
+	parse := func(ks string) (SpecKey, pm) {
+		k := SpecKey{Letter: ks[:1]}
+		rest := ks[1:]
+		if len(rest) > 0 && rest[len(rest)-1] == 'm' {
+			k.Minor = true
+			rest = rest[:len(rest)-1]
+		}
+		switch rest {
+		case "#":
+			k.Acc = 1
+		case "b":
+			k.Acc = -1
+		}
+		return k, pm{k.pc(), k.Minor}
+	}
+	spellings := map[pm][]string{}
+	for _, ks := range requiredKeys() {
+		_, p := parse(ks)
+		spellings[p] = append(spellings[p], ks)
+	}
+	for _, v := range spellings {
+		sort.Strings(v)
+	}
+	step := func(p pm, letter byte) pm {
+		switch letter {
+		case 'd':
+			return pm{(p.pc + 7) % 12, p.minor}
+		case 's':
+			return pm{(p.pc + 5) % 12, p.minor}
+		case 'p':
+			return pm{p.pc, !p.minor}
+		default: // r
+			if p.minor {
+				return pm{(p.pc + 3) % 12, false}
+			}
+			return pm{(p.pc + 9) % 12, true}
+		}
+	}
+	convConst := map[byte]int64{'p': kcs["ParallelKey"], 'r': kcs["RelativeKey"], 'd': kcs["DominantKey"], 's': kcs["SubDominantKey"]}
+	var chains []string
+	letters := "prds"
+	for _, a := range letters {
+		chains = append(chains, string(a))
+		for _, b := range letters {
+			chains = append(chains, string(a)+string(b), string(a)+string(b)+string(a))
+		}
+	}
+	chains = append(chains, strings.Repeat("d", 12), strings.Repeat("s", 12), "dsdsdsds", "prprpr")
+	return c.circleByFoldingOrder(newC, conv, chains, parse, spellings, step, convConst, names, accs, nameOf, accOf)
+}
+
+func (c *Ctx) circleByFoldingOrder(newC, conv *ssa.Function, chains []string, parse func(string) (SpecKey, struct {
+	pc    int
+	minor bool
+}), spellings map[struct {
+	pc    int
+	minor bool
+}][]string, step func(struct {
+	pc    int
+	minor bool
+}, byte) struct {
+	pc    int
+	minor bool
+}, convConst map[byte]int64, names, accs map[string]int64, nameOf, accOf map[int64]string) (string, int, bool) {
+	total := 0
+	for _, rev := range []bool{false, true} {
+		p, n, ok := c.circleByFoldingOnce(rev, newC, conv, chains, parse, spellings, step, convConst, names, accs, nameOf, accOf)
+		total += n
+		if !ok || p != "" {
+			return p, total, ok
+		}
+	}
+	return "", total, true
+}
+
+func (c *Ctx) circleByFoldingOnce(reverse bool, newC, conv *ssa.Function, chains []string, parse func(string) (SpecKey, struct {
+	pc    int
+	minor bool
+}), spellings map[struct {
+	pc    int
+	minor bool
+}][]string, step func(struct {
+	pc    int
+	minor bool
+}, byte) struct {
+	pc    int
+	minor bool
+}, convConst map[byte]int64, names, accs map[string]int64, nameOf, accOf map[int64]string) (string, int, bool) {
+	debug := os.Getenv("CRDCHECK_DEBUG") != ""
+	fd := c.newFolder()
+	fd.maxSteps = 4000000
+	fd.maxDepth = 16
+	fd.reverseMaps = reverse
+	cof, err := fd.foldCall(newC, nil)
+	if err != nil || cof.fields == nil {
+		if debug {
+			fmt.Fprintf(os.Stderr, "circleByFolding: NewCircleOfFifth does not fold: %v %s\n", err, cof.String())
+		}
+		return "", 0, false
+	}
+	heap := fd.heap
+	kcT := conv.Params[0].Type()
+	n := 0
+	for _, ks := range requiredKeys() {
+		sk, start := parse(ks)
+		key := fval{fields: map[string]fval{"Name": {k: constant.MakeInt64(names[sk.Letter])}, "Accidental": {k: constant.MakeInt64(accs[map[int]string{0: "Natural", 1: "Sharp", -1: "Flat"}[sk.Acc]])}, "Minor": {k: constant.MakeBool(sk.Minor)}}}
+		for _, ch := range chains {
+			l := &ListV{T: kcT}
+			want := start
+			for i := 0; i < len(ch); i++ {
+				l.Elems = append(l.Elems, &CVal{V: constant.MakeInt64(convConst[ch[i]])})
+				want = step(want, ch[i])
+			}
+			fd.steps = 0
+			r, err := fd.foldCallEnv(conv, []fval{{cv: l, t: kcT}, cof, key}, nil, heap)
+			if err != nil || len(r.tuple) != 2 || !(r.tuple[1].isNil || r.tuple[1].nonNil) {
+				if debug {
+					fmt.Fprintf(os.Stderr, "circleByFolding: %s -c %q does not fold: %v %s\n", ks, ch, err, r.String())
+				}
+				return "", 0, false
+			}
+			if len(fd.incomplete) > 0 {
+				if debug {
+					fmt.Fprintf(os.Stderr, "circleByFolding: incomplete: %s\n", fd.incomplete[0])
+				}
+				return "", 0, false
+			}
+			n++
+			what := fmt.Sprintf("info key conv --key %s -c %q", ks, ch)
+			if r.tuple[1].nonNil {
+				return what + " fails: every chain from a supported key succeeds", n, true
+			}
+			mv, ok := r.tuple[0].fields["scales"].cv.(*MapV)
+			if !ok {
+				// the member's only field, whatever its name
+				for _, fv := range r.tuple[0].fields {
+					if m2, ok2 := fv.cv.(*MapV); ok2 {
+						mv, ok = m2, true
+					}
+				}
+			}
+			if !ok || (fd.poisoned != nil && fd.poisoned[mv]) {
+				if debug {
+					fmt.Fprintf(os.Stderr, "circleByFolding: %s -c %q: the member is not a known map: %s\n", ks, ch, r.tuple[0].String())
+				}
+				return "", 0, false
+			}
+			var got []string
+			for _, e := range mv.Entries {
+				kv, ok := e.K.(*StructV)
+				if !ok {
+					return "", 0, false
+				}
+				nv, ok1 := kv.Fields["Name"].(*CVal)
+				av, ok2 := kv.Fields["Accidental"].(*CVal)
+				mvv, ok3 := kv.Fields["Minor"].(*CVal)
+				if !ok1 || !ok2 || !ok3 {
+					return "", 0, false
+				}
+				ni, _ := constant.Int64Val(nv.V)
+				ai, _ := constant.Int64Val(av.V)
+				s := nameOf[ni] + accOf[ai]
+				if constant.BoolVal(mvv.V) {
+					s += "m"
+				}
+				got = append(got, s)
+			}
+			sort.Strings(got)
+			if strings.Join(got, " ") != strings.Join(spellings[want], " ") {
+				return fmt.Sprintf("%s answers [%s], the steps compose to [%s]", what, strings.Join(got, " "), strings.Join(spellings[want], " ")), n, true
+			}
+		}
+	}
+	return "", n, true
+}
+
+// degreeTypeByFolding decides astconv.ASTTypeClassifier.degreeType by folding it on a root or bass written with each of
+// the 7 letters and the numbers 1..15 (and 01), each without an accidental and with `#`, U+266F, `b`, U+266D, and on
+// three things that are neither: a letter is a note name whatever its accidental, digits are a degree, anything else is
+// unknown. ok=false when it does not fold.
+func (c *Ctx) degreeTypeByFolding() (string, int, bool) {
+	fn := c.fn("astconv", "ASTTypeClassifier.degreeType")
+	if fn == nil || len(fn.Params) != 2 {
+		return "", 0, false
+	}
+	at := c.enumConsts("astconv", "ASTType")
+	tokType := map[string]int64{}
+	for _, n := range []string{"SYLLABLE", "NUMBER", "SHARP", "FLAT"} {
+		k, _, ok := c.constOf("input/ast", n)
+		if !ok {
+			return "", 0, false
+		}
+		tokType[n], _ = constant.Int64Val(k)
+	}
+	type mark struct{ typ, text string }
+	marks := []mark{{"", ""}, {"SHARP", "#"}, {"SHARP", "♯"}, {"FLAT", "b"}, {"FLAT", "♭"}}
+	type probe struct {
+		tok, text, want string
+	}
+	var probes []probe
+	for _, l := range specLetters {
+		probes = append(probes, probe{"SYLLABLE", l, "SyllableAST"})
+	}
+	for n := 1; n <= 15; n++ {
+		probes = append(probes, probe{"NUMBER", fmt.Sprint(n), "DegreeAST"})
+	}
+	probes = append(probes, probe{"NUMBER", "01", "DegreeAST"}, probe{"SYLLABLE", "H", "UnknownASTType"}, probe{"SYLLABLE", "", "UnknownASTType"}, probe{"SYLLABLE", "c", "UnknownASTType"})
+	n := 0
+	for _, p := range probes {
+		for _, m := range marks {
+			fd := c.newFolder()
+			fd.maxSteps = 20000
+			heap := map[*ssa.Alloc]fval{}
+			fd.invokeRecv = func(call *ssa.Call, recv fval, args []fval) (fval, bool) {
+				if recv.addr == nil {
+					return top, false
+				}
+				cell, ok := heap[recv.addr.base]
+				if !ok || cell.fields == nil {
+					return top, false
+				}
+				switch call.Call.Method.Name() {
+				case "Value":
+					return cell.fields["VValue"], true
+				case "Type":
+					return cell.fields["VType"], true
+				}
+				return top, false
+			}
+			cellOf := func(v fval) fval {
+				cell := new(ssa.Alloc)
+				heap[cell] = v
+				return fval{addr: &faddr{base: cell}}
+			}
+			mkTok := func(typ int64, val string) fval {
+				return cellOf(fval{fields: map[string]fval{"VType": {k: constant.MakeInt64(typ), t: types.Typ[types.Int]}, "VValue": {k: constant.MakeString(val), t: types.Typ[types.String]}}})
+			}
+			acc := fval{isNil: true}
+			if m.typ != "" {
+				acc = mkTok(tokType[m.typ], m.text)
+			}
+			arg := cellOf(fval{fields: map[string]fval{"Degree": mkTok(tokType[p.tok], p.text), "Accidental": acc}})
+			r, err := fd.foldCallEnv(fn, []fval{{fields: map[string]fval{}}, arg}, nil, heap)
+			if err != nil || r.k == nil || r.k.Kind() != constant.Int {
+				if os.Getenv("CRDCHECK_DEBUG") != "" {
+					fmt.Fprintf(os.Stderr, "degreeTypeByFolding: %q%s does not fold: %v %s\n", p.text, m.text, err, r.String())
+				}
+				return "", 0, false
+			}
+			n++
+			got, _ := constant.Int64Val(r.k)
+			if got != at[p.want] {
+				gotName := "?"
+				for k, v := range at {
+					if v == got {
+						gotName = k
+					}
+				}
+				return fmt.Sprintf("%q written with the accidental %q is classified as %s, want %s: a text that uses it is refused as a whole (or taken for the other notation)", p.text, m.text, gotName, p.want), n, true
+			}
 		}
 	}
 	return "", n, true
